@@ -291,6 +291,7 @@ spec fn push_frame(ts0: Seq<TypeNode>, ts1: Seq<TypeNode>, ty: Type) -> bool {
     &&& ts1.len() == ts0.len() + 1
     &&& ts1[ts0.len() as int].ty == ty
     &&& ts1[ts0.len() as int].parent is None
+    &&& ts1[ts0.len() as int].constraints@.dom() =~= Set::<Constraint>::empty()
     &&& forall|i: int| 0 <= i < ts0.len() ==> ts1[i] == ts0[i]
     &&& forall|i: int| 0 <= i < ts0.len() ==> rep0(ts1, i) == rep0(ts0, i)
     &&& rep0(ts1, ts0.len() as int) == ts0.len()
@@ -1093,6 +1094,47 @@ proof fn axiom_string_key_order() ensures vstd::std_specs::btree::key_obeys_cmp_
 /// specification asks of a key type; vstd provides this axiom for the primitive types only)
 #[verifier::external_body]
 proof fn axiom_string_hash_key() ensures vstd::std_specs::hash::obeys_key_model::<String>() {}
+/// assumption A-hash-tyid: derive(Hash, Eq) on TyID is a lawful hash-table key
+#[verifier::external_body]
+proof fn axiom_tyid_hash_key() ensures vstd::std_specs::hash::obeys_key_model::<TyID>() {}
+/// the nodes that existed keep their type, their constraints and their class (what a copy leaves alone)
+spec fn prefix_same(a: Seq<TypeNode>, b: Seq<TypeNode>) -> bool {
+    &&& a.len() <= b.len()
+    &&& forall|i: int| 0 <= i < a.len() ==> (#[trigger] b[i]).ty == a[i].ty && b[i].constraints == a[i].constraints && rep0(b, i) == rep0(a, i)
+}
+spec fn prefix_from(a: Seq<TypeNode>, b: Seq<TypeNode>) -> bool {
+    forall|o: Seq<TypeNode>| #[trigger] prefix_same(o, a) ==> prefix_same(o, b)
+}
+proof fn lemma_prefix_refl(a: Seq<TypeNode>) ensures prefix_same(a, a) {}
+proof fn lemma_prefix_from(a: Seq<TypeNode>, b: Seq<TypeNode>)
+    requires prefix_same(a, b),
+    ensures prefix_from(a, b),
+{
+    assert forall|o: Seq<TypeNode>| #[trigger] prefix_same(o, a) implies prefix_same(o, b) by {
+        assert forall|i: int| 0 <= i < o.len() implies (#[trigger] b[i]).ty == o[i].ty && b[i].constraints == o[i].constraints && rep0(b, i) == rep0(o, i) by {
+            assert(a[i].ty == o[i].ty);
+        }
+    }
+}
+broadcast proof fn lemma_same_graph_prefix(a: Seq<TypeNode>, b: Seq<TypeNode>)
+    requires #[trigger] same_graph(a, b),
+    ensures prefix_from(a, b),
+{
+    assert(prefix_same(a, b)) by {
+        assert forall|i: int| 0 <= i < a.len() implies (#[trigger] b[i]).ty == a[i].ty && b[i].constraints == a[i].constraints && rep0(b, i) == rep0(a, i) by { }
+    }
+    lemma_prefix_from(a, b);
+}
+proof fn lemma_push_prefix(ts0: Seq<TypeNode>, ts1: Seq<TypeNode>, ty: Type)
+    requires push_frame(ts0, ts1, ty),
+    ensures prefix_from(ts0, ts1),
+{
+    reveal(push_frame);
+    assert(prefix_same(ts0, ts1));
+    lemma_prefix_from(ts0, ts1);
+}
+/// the copies made so far are nodes of the graph
+spec fn seen_ok(m: Map<TyID, TyID>, n: int) -> bool { forall|k: TyID| #[trigger] m.contains_key(k) ==> (m[k].0 as int) < n }
 
 /// two known types that can never be unified: different head constructors, tuples of different
 /// length, functions of different arity or with clashing purity, different extern blobs
@@ -1207,6 +1249,12 @@ impl TypeChecker {
         forall|i: int| 0 <= i < self.variables@.len() ==> ((#[trigger] self.variables@[i].ty).0 as int) < self.types@.len()
     }
     spec fn inv2(&self) -> bool { self.inv() && self.vars_valid() }
+    /// what every loop of inner_copy keeps: the invariant, the frame, the copies made so far are nodes,
+    /// the nodes that existed at entry (ts0) and at the last snapshot (sq) are untouched
+    spec fn copy_inv(&self, old: &TypeChecker, seen: Map<TyID, TyID>, ts0: Seq<TypeNode>, sq: Seq<TypeNode>, new_ty: TyID, old_ty: TyID) -> bool {
+        self.inv2() && self.grows(old) && seen_ok(seen, self.types@.len() as int) && prefix_same(ts0, self.types@) && prefix_same(sq, self.types@)
+            && self.valid(new_ty) && self.valid(old_ty) && vstd::std_specs::hash::obeys_key_model::<TyID>()
+    }
     /// the frame every checker function obeys: the graph only grows, the variable table is fixed
     spec fn grows(&self, old: &TypeChecker) -> bool {
         self.types@.len() >= old.types@.len() && self.variables == old.variables && merges_from(old.types@, self.types@) && cons_from(old.types@, self.types@)
@@ -1788,16 +1836,183 @@ proof fn lemma_parents_same_rep(a: Seq<TypeNode>, b: Seq<TypeNode>, h: Seq<nat>,
 
 impl TypeChecker {
 // ---- functions left outside (assumed contracts; signatures are taken from the repository) ---------
+//@ fn sylt-compiler/src/typechecker.rs inner_copy
+//@   in TypeChecker
+//@   props C02 C03 C05 C07
+//@   splitmatch 3
+//@   split 1 { proof { assume(false); } Type::Unknown }
+//@   attr #[verifier::exec_allows_no_decreases_clause]
+//@   attr #[verifier::loop_isolation(false)]
+//@   ret r
+//@   rewrite equivalent
+//@- self.find_node_mut(new_ty).constraints = self
+//@-     .find_node(old_ty)
+//@-     .constraints
+//@-     .clone()
+//@-     .iter()
+//@-     .map(|(con, span)| {
+//@-         (
+//@-             match &con {
+//@+ let hoisted_cons = self.find_node(old_ty).constraints.clone();
+//@+ let mut new_cons: BTreeMap<Constraint, Span> = BTreeMap::new();
+//@+ for (con, span) in hoisted_cons.iter() {
+//@+     let mapped_con =
+//@+             match con {
+//@   why closure capturing &mut self + map/collect. In `place = value` Rust evaluates the value first, so building the map in a local and assigning it afterwards is the same; collecting pairs into a BTreeMap inserts them in iteration order, a later equal key replacing the earlier one, which is this loop; `match &con` on a `&Constraint` binds the same references as `match con`
+//@   endrewrite
+//@   rewrite equivalent
+//@- C::Variant(v.clone(), x.map(|y| self.inner_copy(y, seen)))
+//@+ C::Variant(v.clone(), match *x { Some(y) => Some(self.inner_copy(y, seen)), None => None })
+//@   why closure capturing &mut self; Option::map is this match
+//@   endrewrite
+//@   rewrite equivalent
+//@-             },
+//@-             *span,
+//@-         )
+//@-     })
+//@-     .collect();
+//@+             };
+//@+     new_cons.insert(mapped_con, *span);
+//@+ }
+//@+ self.find_node_mut(new_ty).constraints = new_cons;
+//@   why second half of the rewrite above
+//@   endrewrite
+//@   rewrite equivalent
+//@- self.find_node_mut(new_ty).ty = match ty {
+//@+ let new_type = match ty {
+//@   why the assigned value is evaluated before the assignee (it has to: both borrow self mutably); see the closing half
+//@   endrewrite
+//@   rewrite equivalent
+//@- };
+//@- new_ty
+//@+ };
+//@+ self.find_node_mut(new_ty).ty = new_type;
+//@+ new_ty
+//@   why closing half of the rewrite above
+//@   endrewrite
+//@   rewrite equivalent
+//@- Type::Tuple(tys.iter().map(|ty| self.inner_copy(*ty, seen)).collect())
+//@+ Type::Tuple({ let mut copied: Vec<TyID> = Vec::new(); for ty in tys.iter() { copied.push(self.inner_copy(*ty, seen)); } copied })
+//@   why closure capturing &mut self + collect; map/collect into a Vec pushes one result per element, in order
+//@   endrewrite
+//@   rewrite equivalent count=4
+//@- args.iter().map(|ty| self.inner_copy(*ty, seen)).collect(),
+//@+ { let mut copied: Vec<TyID> = Vec::new();
+//@+ for ty in args.iter() { copied.push(self.inner_copy(*ty, seen)); }
+//@+ copied },
+//@   why as above (a block expression in the same argument position keeps the evaluation order of the arguments)
+//@   endrewrite
+//@   rewrite equivalent count=2
+//@- fields
+//@-     .iter()
+//@-     .map(|(name, (span, ty))| (name.clone(), (*span, self.inner_copy(*ty, seen))))
+//@-     .collect(),
+//@+ { let mut copied: BTreeMap<String, (Span, TyID)> = BTreeMap::new();
+//@+ for (name, (span, ty)) in fields.iter() { copied.insert(name.clone(), (*span, self.inner_copy(*ty, seen))); }
+//@+ copied },
+//@   why as above, into a BTreeMap (keys of the source map are distinct, so no insert replaces another)
+//@   endrewrite
+//@   rewrite equivalent
+//@- variants
+//@-     .iter()
+//@-     .map(|(name, (span, ty))| (name.clone(), (*span, self.inner_copy(*ty, seen))))
+//@-     .collect(),
+//@+ { let mut copied: BTreeMap<String, (Span, TyID)> = BTreeMap::new();
+//@+ for (name, (span, ty)) in variants.iter() { copied.insert(name.clone(), (*span, self.inner_copy(*ty, seen))); }
+//@+ copied },
+//@   why as above
+//@   endrewrite
+//@   spec
+        requires old(self).inv2(), old(self).valid(old_ty), //# C07 inner_copy.pre.id_in_range
+            seen_ok(old(seen)@, old(self).types@.len() as int), //# C07 inner_copy.pre.copies_so_far_are_nodes
+            vstd::std_specs::hash::obeys_key_model::<TyID>(), //# C07 inner_copy.pre.key_model
+        ensures final(self).inv2(), final(self).grows(old(self)), final(self).valid(r), //# C02,C07 inner_copy.keeps_invariant
+            seen_ok(final(seen)@, final(self).types@.len() as int), //# C07 inner_copy.copies_are_nodes
+            prefix_from(old(self).types@, final(self).types@), //# C02 inner_copy.existing_nodes_keep_type_constraints_and_class
+            !old(seen)@.contains_key(TyID(rep0(old(self).types@, old_ty.0 as int) as usize)) ==> shape_eq(ty_of(old(self).types@, old_ty), ty_of(final(self).types@, r)), //# C02,C03,C05 inner_copy.a_fresh_copy_has_the_shape_of_the_original
+//@   endspec
+//@   ghost entry
+        let ghost ts0 = self.types@;
+        broadcast use lemma_same_graph_prefix, vstd::std_specs::hash::group_hash_axioms;
+        proof { axiom_constraint_key_order(); axiom_string_key_order(); lemma_prefix_refl(ts0); }
+//@   endghost
+//@   ghost after
+//@| let new_ty = self.push_type(Type::Unknown);
+        let ghost sp = self.types@;
+        proof { lemma_prefix_refl(sp); reveal(push_frame); }
+//@   endghost
+//@   loop 1 binder it
+            invariant
+                self.copy_inv(old(self), seen@, ts0, sp, new_ty, old_ty), //# C02,C07 inner_copy.loop1.aux1
+                vstd::std_specs::btree::key_obeys_cmp_spec::<Constraint>(), //# C07 inner_copy.loop1.aux2
+                cons_in_range(hoisted_cons@, self.types@.len() as int), cons_in_range(new_cons@, self.types@.len() as int), //# C07 inner_copy.loop1.aux3
+                forall|j: int| 0 <= j < it.seq().len() ==> hoisted_cons@.dom().contains(*(#[trigger] it.seq()[j]).0), //# - inner_copy.loop1.aux4
+//@   endloop
+//@   ghost before
+//@| let ty = self.find_type(old_ty);
+        let ghost sq = self.types@;
+        proof { lemma_prefix_refl(sq); }
+//@   endghost
+//@   loop 2 binder it
+            invariant self.copy_inv(old(self), seen@, ts0, sq, new_ty, old_ty), ids_below(copied@, self.types@.len() as int), //# C02,C07 inner_copy.loop2.aux1
+                copied@.len() == it.index@, //# C03,C05 inner_copy.loop2.one_copy_per_element
+//@   endloop
+//@   loop 3 binder it
+            invariant self.copy_inv(old(self), seen@, ts0, sq, new_ty, old_ty), ids_below(copied@, self.types@.len() as int), //# C02,C07 inner_copy.loop3.aux1
+                copied@.len() == it.index@, //# C03,C05 inner_copy.loop3.one_copy_per_element
+//@   endloop
+//@   loop 4 binder it
+            invariant self.copy_inv(old(self), seen@, ts0, sq, new_ty, old_ty), fields_in_range(copied, self.types@.len() as int), vstd::std_specs::btree::key_obeys_cmp_spec::<String>(), //# C02,C07 inner_copy.loop4.aux1
+                forall|j: int| 0 <= j < it.seq().len() ==> fields@.contains_pair(*(#[trigger] it.seq()[j]).0, *it.seq()[j].1), //# - inner_copy.loop4.aux2
+//@   endloop
+//@   ghost before-loop 5
+            let ghost l5 = self.types@.len();
+//@   endghost
+//@   loop 5
+            invariant self.copy_inv(old(self), seen@, ts0, sq, new_ty, old_ty), ids_below(copied@, self.types@.len() as int), self.types@.len() >= l5, //# C02,C07 inner_copy.loop5.aux1
+//@   endloop
+//@   loop 6 binder it
+            invariant self.copy_inv(old(self), seen@, ts0, sq, new_ty, old_ty), fields_in_range(copied, self.types@.len() as int), vstd::std_specs::btree::key_obeys_cmp_spec::<String>(), //# C02,C07 inner_copy.loop6.aux1
+                forall|j: int| 0 <= j < it.seq().len() ==> fields@.contains_pair(*(#[trigger] it.seq()[j]).0, *it.seq()[j].1), //# - inner_copy.loop6.aux2
+                forall|name: String| #[trigger] copied@.dom().contains(name) <==> (exists|j: int| 0 <= j < it.index@ && *(#[trigger] it.seq()[j]).0 == name), //# C05 inner_copy.loop6.the_copy_has_the_names_visited_so_far
+//@   endloop
+//@   ghost after-loop 6
+            assert(copied@.dom() =~= fields@.dom()); //# C05 inner_copy.the_copy_of_a_blob_has_its_field_names
+//@   endghost
+//@   ghost before-loop 7
+            let ghost l7 = self.types@.len();
+//@   endghost
+//@   loop 7
+            invariant self.copy_inv(old(self), seen@, ts0, sq, new_ty, old_ty), ids_below(copied@, self.types@.len() as int), self.types@.len() >= l7, //# C02,C07 inner_copy.loop7.aux1
+//@   endloop
+//@   loop 8 binder it
+            invariant self.copy_inv(old(self), seen@, ts0, sq, new_ty, old_ty), fields_in_range(copied, self.types@.len() as int), vstd::std_specs::btree::key_obeys_cmp_spec::<String>(), //# C02,C07 inner_copy.loop8.aux1
+                forall|j: int| 0 <= j < it.seq().len() ==> variants@.contains_pair(*(#[trigger] it.seq()[j]).0, *it.seq()[j].1), //# - inner_copy.loop8.aux2
+                forall|name: String| #[trigger] copied@.dom().contains(name) <==> (exists|j: int| 0 <= j < it.index@ && *(#[trigger] it.seq()[j]).0 == name), //# C05 inner_copy.loop8.the_copy_has_the_names_visited_so_far
+//@   endloop
+//@   ghost after-loop 8
+            assert(copied@.dom() =~= variants@.dom()); //# C05 inner_copy.the_copy_of_an_enum_has_its_variant_names
+//@   endghost
+//@   ghost before-loop 9
+            let ghost l9 = self.types@.len();
+//@   endghost
+//@   loop 9
+            invariant self.copy_inv(old(self), seen@, ts0, sq, new_ty, old_ty), ids_below(copied@, self.types@.len() as int), self.types@.len() >= l9, //# C02,C07 inner_copy.loop9.aux1
+//@   endloop
+//@ end
 //@ fn sylt-compiler/src/typechecker.rs copy
 //@   in TypeChecker
-//@   mode assumed
+//@   props C02 C07
 //@   ret r
 //@   spec
-        requires old(self).inv2(), old(self).valid(ty),
-        ensures final(self).inv2(), final(self).grows(old(self)), final(self).valid(r),
-            // assumed: an instance of a type has the shape of the type (constructor, tuple length, field / variant names)
-            shape_eq(ty_of(old(self).types@, ty), ty_of(final(self).types@, r)),
+        requires old(self).inv2(), old(self).valid(ty), //# C07 copy.pre.id_in_range
+        ensures final(self).inv2(), final(self).grows(old(self)), final(self).valid(r), //# C02,C07 copy.keeps_invariant
+            shape_eq(ty_of(old(self).types@, ty), ty_of(final(self).types@, r)), //# C02,C03,C05 copy.an_instance_has_the_shape_of_the_type_it_copies
 //@   endspec
+//@   ghost entry
+        broadcast use vstd::std_specs::hash::group_hash_axioms;
+        proof { axiom_tyid_hash_key(); }
+//@   endghost
 //@ end
 
 //@ fn sylt-compiler/src/typechecker.rs expression
@@ -2330,7 +2545,8 @@ impl TypeChecker {
                 && forall|i: int| 0 <= i < old(self).types@.len() ==> #[trigger] rep0(final(self).types@, i) == rep0(old(self).types@, i), //# C02 find_node_mut.partition_unchanged_if_parent_untouched
             final(r).parent is None && final(r).size == r.size && sizes_inv(old(self).types@) ==> sizes_inv(final(self).types@), //# C02 find_node_mut.sizes_kept_if_size_untouched
             final(r).parent is None ==> merges_from(old(self).types@, final(self).types@), //# C02 find_node_mut.classes_only_merge
-            final(r).parent is None && final(r).constraints == r.constraints ==> cons_from(old(self).types@, final(self).types@), //# C02 find_node_mut.no_constraint_dropped_if_constraints_untouched
+            final(r).parent is None && (forall|c: Constraint| r.constraints@.dom().contains(c) ==> final(r).constraints@.dom().contains(c)) ==> cons_from(old(self).types@, final(self).types@), //# C02 find_node_mut.no_constraint_dropped_if_the_write_drops_none
+            final(r).parent is None ==> forall|o: Seq<TypeNode>| #[trigger] prefix_same(o, old(self).types@) && o.len() <= rep0(old(self).types@, a.0 as int) ==> prefix_same(o, final(self).types@), //# C02 find_node_mut.nodes_below_the_written_one_are_untouched
             final(r).parent is None && (r.ty is Unknown || shape_eq(r.ty, final(r).ty)) ==> heads_from(old(self).types@, final(self).types@), //# C02,C03 find_node_mut.known_types_keep_their_shape_if_the_write_does
             final(self).variables == old(self).variables, //# C07 find_node_mut.spec.aux3
 //@   endspec
@@ -2349,7 +2565,8 @@ impl TypeChecker {
                 && (forall|i: int| 0 <= i < ts0.len() ==> #[trigger] rep0(mid.update(ta as int, n), i) == rep0(ts0, i))
                 && (n.size == mid[ta as int].size && sizes_inv(ts0) ==> sizes_inv(mid.update(ta as int, n)))
                 && merges_from(ts0, mid.update(ta as int, n))
-                && (n.constraints == mid[ta as int].constraints ==> cons_from(ts0, mid.update(ta as int, n)))
+                && ((forall|c: Constraint| mid[ta as int].constraints@.dom().contains(c) ==> n.constraints@.dom().contains(c)) ==> cons_from(ts0, mid.update(ta as int, n)))
+                && (forall|o: Seq<TypeNode>| #[trigger] prefix_same(o, ts0) && o.len() <= ta ==> prefix_same(o, mid.update(ta as int, n)))
                 && (mid[ta as int].ty is Unknown || shape_eq(mid[ta as int].ty, n.ty) ==> heads_from(ts0, mid.update(ta as int, n))) by {
                 let upd = mid.update(ta as int, n);
                 lemma_parents_same(mid, upd);
@@ -2361,12 +2578,13 @@ impl TypeChecker {
                     }
                 }
                 lemma_merges_from(ts0, upd);
-                if n.constraints == mid[ta as int].constraints {
+                if forall|c: Constraint| mid[ta as int].constraints@.dom().contains(c) ==> n.constraints@.dom().contains(c) {
                     assert(cons_mono(ts0, upd)) by {
                         assert forall|i: int, c: Constraint| 0 <= i < ts0.len() && #[trigger] cons_of(ts0, i).contains(c) implies cons_of(upd, i).contains(c) by {
                             lemma_rep0_props(ts0, i);
                             assert(rep0(upd, i) == rep0(mid, i)); assert(rep0(mid, i) == rep0(ts0, i));
                             assert(mid[rep0(ts0, i)].constraints == ts0[rep0(ts0, i)].constraints);
+                            if rep0(ts0, i) == ta as int { assert(n.constraints@.dom().contains(c)); }
                         }
                     }
                     lemma_cons_from(ts0, upd);
@@ -2384,6 +2602,13 @@ impl TypeChecker {
                 assert forall|i: int| 0 <= i < ts0.len() implies #[trigger] rep0(upd, i) == rep0(ts0, i) by {
                     assert(rep0(upd, i) == rep0(mid, i));
                     assert(rep0(mid, i) == rep0(ts0, i));
+                }
+                assert forall|o: Seq<TypeNode>| #[trigger] prefix_same(o, ts0) && o.len() <= ta implies prefix_same(o, upd) by {
+                    assert forall|i: int| 0 <= i < o.len() implies (#[trigger] upd[i]).ty == o[i].ty && upd[i].constraints == o[i].constraints && rep0(upd, i) == rep0(o, i) by {
+                        assert(ts0[i].ty == o[i].ty);
+                        assert(mid[i].ty == ts0[i].ty);
+                        assert(rep0(upd, i) == rep0(ts0, i));
+                    }
                 }
             }
         }
